@@ -41,7 +41,15 @@ class FuncIndex(ast.NodeVisitor):
 
     def visit_FunctionDef(self, node):
         self.stack.append(node.name)
-        self.funcs['.'.join(self.stack)] = node
+        key = '.'.join(self.stack)
+        if key in self.funcs:
+            # e.g. a property getter and its setter share the qualified name: the first
+            # definition keeps the plain name, later ones get a suffix
+            k = 2
+            while f'{key}__{k}' in self.funcs:
+                k += 1
+            key = f'{key}__{k}'
+        self.funcs[key] = node
         self.generic_visit(node)
         self.stack.pop()
 
